@@ -8,6 +8,7 @@ import (
 	"context"
 	"encoding/json"
 	"fmt"
+	"os"
 	"runtime"
 	"strconv"
 	"strings"
@@ -45,6 +46,11 @@ type Event struct {
 	// NoWait: the event is applied right behind the previous one, without waiting for quiescence
 	// (a burst: messages pile up in the receive queue while the handler is still busy)
 	NoWait bool `json:"noWait,omitempty"`
+	// OwnMID > 0 (datagram): the peer numbers this request with a message ID the library itself is
+	// about to use (its last one seen on the wire + OwnMID; the library's counter advances by 1-2
+	// per message): the two endpoints' ID spaces are independent (RFC 7252 4.4), so a nested
+	// request and the request being handled may carry the same ID
+	OwnMID int `json:"ownMID,omitempty"`
 }
 
 type Scenario struct {
@@ -65,6 +71,8 @@ type hrec struct {
 	done    bool
 	nestErr string
 }
+
+var debug = os.Getenv("VERIF_DEBUG") != ""
 
 func Exec(t *testing.T, sc Scenario, r *evid.Run) *evid.Failure {
 	var hlog []hrec // handler entries in dispatch order
@@ -173,8 +181,16 @@ func Exec(t *testing.T, sc Scenario, r *evid.Run) *evid.Failure {
 		pendingNested := map[string]refcodec.Msg{} // "id/depth" -> request seen on the wire
 		pendingApp := map[int]refcodec.Msg{}
 		nextMID := 53000
+		lastLibMID := -1
+		usedMID := map[int]bool{}
 		scan := func() {
 			for _, m := range w.FromLib() {
+				if debug {
+					fmt.Printf("  lib->peer type=%d mid=%d code=%d tok=%x opts=%v\n", m.Type, m.MID, m.Code, m.Token, m.Opts)
+				}
+				if w.Datagram() && (m.Type == peer.CON || m.Type == peer.NON) {
+					lastLibMID = m.MID
+				}
 				if m.Code != 1 {
 					continue
 				}
@@ -205,6 +221,17 @@ func Exec(t *testing.T, sc Scenario, r *evid.Run) *evid.Failure {
 				m := refcodec.Msg{Code: 1, MID: nextMID & 0xffff, Token: []byte{0x11, byte(e.ID)}, Opts: peer.PathOpts("m", strconv.Itoa(e.ID), e.Beh)}
 				if w.Datagram() && !e.Con {
 					m.Type = peer.NON
+				}
+				if own := (lastLibMID + e.OwnMID) & 0xffff; e.OwnMID > 0 && w.Datagram() && lastLibMID >= 0 && !usedMID[own] {
+					m.MID = own
+				}
+				for usedMID[m.MID] { // a well-behaved peer does not re-use an ID within the exchange lifetime
+					nextMID++
+					m.MID = nextMID & 0xffff
+				}
+				usedMID[m.MID] = true
+				if debug {
+					fmt.Printf("  peer->lib inject %d type=%d mid=%d\n", e.ID, m.Type, m.MID)
 				}
 				w.ToLib(m)
 			case "answer":
@@ -409,6 +436,11 @@ func gen(t *rapid.T) Scenario {
 			if !allPlain {
 				e.Beh = rapid.SampledFrom([]string{"plain", "plain", "nested", "nested", "gated"}).Draw(t, "beh")
 			}
+			if rapid.IntRange(0, 3).Draw(t, "ownmid") == 0 {
+				// next to the library's own counter, or half the ID space away from it (where the
+				// library moves its counter when it notices the former)
+				e.OwnMID = rapid.SampledFrom([]int{1, 2, 2, 3, 4, 32768, 32769, 32770}).Draw(t, "ownmidoff")
+			}
 			if e.Beh == "nested" {
 				e.Depth = rapid.IntRange(1, 3).Draw(t, "depth")
 				nested = append(nested, e.ID)
@@ -473,12 +505,18 @@ func TestCheck(t *testing.T) {
 					break
 				}
 			}
+			for _, e := range sc.Events {
+				if e.OwnMID > 0 && sc.Transport == "udp" {
+					cls = append(cls, "dispatch/peer-uses-own-message-id")
+					break
+				}
+			}
 			r.Case("dispatch", key, func() any { return sc }, cls...)
 		}
 		return f
 	})
 	r.Main(evid.Meta{
-		Rule:        "a connection (datagram and stream, receive queue 0/1/16) in a synctest bubble; the scripted peer injects numbered requests whose handlers return at once, block on 1-3 sequential requests issued on the same connection, or block on a gate, or stay busy without blocking; messages arrive one by one (quiescence in between) or in bursts that pile up in the receive queue; it answers the nested requests after delivering further messages, other goroutines issue requests meanwhile, the connection may be closed at a generated point; Oracle: every message injected while the connection is open reaches the handler exactly once; every nested request completes with its own response (so later messages — among them the awaited response — are processed while a handler waits); every handler finishes once gates are open and nested requests answered; application requests complete; with only non-blocking handlers and no other user of the connection the dispatch order equals the arrival order. Non-trivial = a handler waits on a nested request while a further message arrives; distinct by scenario",
+		Rule:        "a connection (datagram and stream, receive queue 0/1/16) in a synctest bubble; the scripted peer injects numbered requests whose handlers return at once, block on 1-3 sequential requests issued on the same connection, or block on a gate, or stay busy without blocking; message IDs of the peer's choosing, some of them equal or close to the IDs the library itself is about to use or half the ID space away; messages arrive one by one (quiescence in between) or in bursts that pile up in the receive queue; it answers the nested requests after delivering further messages, other goroutines issue requests meanwhile, the connection may be closed at a generated point; Oracle: every message injected while the connection is open reaches the handler exactly once; every nested request completes with its own response (so later messages — among them the awaited response — are processed while a handler waits); every handler finishes once gates are open and nested requests answered; application requests complete; with only non-blocking handlers and no other user of the connection the dispatch order equals the arrival order. Non-trivial = a handler waits on a nested request while a further message arrives; distinct by scenario",
 		Assumptions: []string{"a handler that blocks on something other than its own connection (the gate) legitimately stalls later messages until it returns", "after close nothing is required of undelivered messages"},
 		Floor:       300,
 	}, eng)
